@@ -33,17 +33,32 @@ def mk_world(base, seed, idx, tag):
     return r, sim, w
 
 
-def ai_commit(w, r, paths, region="bottom", n_edits=(1, 2), who=None, kinds=None):
-    """a commit containing AI (and sometimes human) edits in `paths`"""
+import os
+KINDS_SLOW = tuple(os.environ.get("C02_KINDS", "ins,del,rep").split(","))
+OWNER = {"a.txt": "s1", "src/b.rs": "s2", "c d.py": "s1"}
+
+
+def ai_commit(w, r, paths, region="bottom", n_edits=(1, 2), who=None, kinds=None, owned=False):
+    """a commit containing AI (and sometimes human) edits in `paths`.
+    owned=True: every AI edit of a file is made by that file's owner session (so that the rewritten
+    range never has two sessions in one file — session confusion on the slow path is known class K3)."""
+    did_ai = False
     for _ in range(r.range(*n_edits)):
-        w.op_edit(actor=who or r.pick(SESSIONS + ["H"]), path=r.pick(paths), region=region, kinds=kinds)
-    if not any(t[0] == "edit" and t[1] in SESSIONS for t in w.trace[-3:]):
-        w.op_edit(actor=r.pick(SESSIONS), path=r.pick(paths), region=region, kinds=kinds)
+        p = r.pick(paths)
+        actor = who or r.pick(SESSIONS + ["H"])
+        if owned and actor != "H":
+            actor = OWNER.get(p, "s1")
+        did_ai = did_ai or actor != "H"
+        w.op_edit(actor=actor, path=p, region=region, kinds=kinds)
+    if not did_ai:
+        p = r.pick(paths)
+        w.op_edit(actor=OWNER.get(p, "s1") if owned else r.pick(SESSIONS), path=p, region=region, kinds=kinds)
     return w.op_commit()
 
 
 def upstream_commit(w, r, paths, region="top"):
-    w.op_edit(actor=r.pick(["H", "H", "s2"]), path=r.pick(paths), region=region)
+    p = r.pick(paths)
+    w.op_edit(actor=r.pick(["H", "H", OWNER.get(p, "s1")]), path=p, region=region, kinds=KINDS_SLOW)
     return w.op_commit()
 
 
@@ -53,8 +68,9 @@ def scenario(args):
     r, sim, w = mk_world(base, seed, idx, "c02-" + tmpl)
     fails, info = [], {}
     shared = ["a.txt", "src/b.rs"]
+    owned = tmpl.startswith(("rebase", "cherry_pick", "merge_squash"))
     try:
-        ai_commit(w, r, shared)                       # main: c1 (AI work that must survive everything)
+        ai_commit(w, r, shared, owned=owned)           # main: c1 (AI work that must survive everything)
         inert = None
         if tmpl in ("amend", "amend_msg"):
             ai_commit(w, r, shared)
@@ -76,7 +92,7 @@ def scenario(args):
             for k in range(ncom):
                 # in-place modification of another session's fresh line inside a rewritten commit is known class K3
                 ai_commit(w, r, ["c d.py"] if (k == 0 and not conflict) else shared, region="bottom",
-                          kinds=("ins", "del", "rep"))
+                          kinds=KINDS_SLOW, owned=True)
             w.git("switch", "-q", "main")
             w.cur = "main"
             for _ in range(r.range(1, 2)):
@@ -151,7 +167,7 @@ def scenario(args):
         elif tmpl == "merge_squash":
             w.git("switch", "-q", "-c", "feature")
             for k in range(r.range(1, 3)):
-                ai_commit(w, r, ["c d.py", "src/b.rs"], region="bottom")
+                ai_commit(w, r, ["c d.py", "src/b.rs"], region="bottom", kinds=KINDS_SLOW, owned=True)
             w.git("switch", "-q", "main")
             upstream_commit(w, r, ["a.txt"])
             w.git("merge", "--squash", "feature")
